@@ -137,6 +137,10 @@ class MinErrorFlow():
             self.G = stdag.stDAG(self.G_internal, additional_starts=additional_starts_internal, additional_ends=additional_ends_internal)
             self.edges_to_ignore = set(edges_to_ignore_internal).union(self.G.source_sink_edges)
         else:
+            # (the acyclic branch validates the node names when it builds the stDAG; graphs with cycles are used as they are)
+            if not all(isinstance(node, str) for node in self.G_internal.nodes()):
+                utils.logger.error(f"{__name__}: Every node of the graph must be a string.")
+                raise ValueError("Every node of the graph must be a string.")
             self.G = self.G_internal
             self.is_acyclic = False
             self.edges_to_ignore = set(edges_to_ignore_internal)
